@@ -13,10 +13,12 @@
 //!   * each canonical-form violation is refused.
 use chrono::{DateTime, Utc};
 use grin_chain::txhashset::{BitmapAccumulator, BitmapChunk, BitmapSegment};
-use grin_chain::types::Tip;
+use grin_chain::types::{CommitPos, Tip};
 use grin_core::core::pmmr::segment::{Segment, SegmentIdentifier, SegmentProof};
 use grin_core::core::pmmr::{ReadonlyPMMR, VecBackend, PMMR};
 use grin_core::core::hash::{Hash, Hashed};
+use grin_core::core::merkle_proof::MerkleProof;
+use grin_core::core::HeaderEntry;
 use grin_core::core::{
 	Block, BlockHeader, CommitWrapper, CompactBlock, HeaderVersion, Input, Inputs, KernelFeatures,
 	NRDRelativeHeight, Output, OutputFeatures, OutputIdentifier, ShortId, Transaction,
@@ -4472,6 +4474,549 @@ fn messages(cx: &mut Ctx) {
 	}
 }
 
+// ---------------------------------------------------------------------------------------------
+// store-side encodings (run `store`): HeaderEntry / as_elmt / elmt_size, CommitPos, the spent index
+// (`Vec<CommitPos>` through `impl Readable for Vec<T>`), headers read under
+// `DeserializationMode::SkipPow`, MerkleProof, Hash::from_vec
+
+/// `HeaderEntry` has private fields and no `PartialEq`: it is taken apart through its encoding
+/// (32 + 8 + 8 + 4 + 1 bytes)
+fn entry_fields(e: &HeaderEntry) -> Option<(Vec<u8>, u64, u64, u32, u8)> {
+	let b = enc_at(e, 1).ok()?;
+	if b.len() != 53 {
+		return None;
+	}
+	let mut u8b = [0u8; 8];
+	u8b.copy_from_slice(b.get(32..40)?);
+	let ts = u64::from_be_bytes(u8b);
+	u8b.copy_from_slice(b.get(40..48)?);
+	let td = u64::from_be_bytes(u8b);
+	let mut u4b = [0u8; 4];
+	u4b.copy_from_slice(b.get(48..52)?);
+	Some((b.get(..32)?.to_vec(), ts, td, u32::from_be_bytes(u4b), *b.get(52)?))
+}
+
+impl Ty for HeaderEntry {
+	const NAME: &'static str = "HeaderEntry";
+	/// `Hashed for HeaderEntry` returns the stored hash (compared on the `ser elmt` lines); as an
+	/// encoded type it has no hash of its own
+	fn hash_hex(&self) -> Option<String> {
+		None
+	}
+	fn same(&self, d: &Self, _v: u32) -> bool {
+		enc_at(self, 1).is_ok() && enc_at(self, 1) == enc_at(d, 1) && self.hash() == d.hash()
+	}
+	fn describe(&self) -> String {
+		match entry_fields(self) {
+			Some((h, ts, td, ss, f)) => format!("{} {} {} {} {}", hex(&h), ts, td, ss, f),
+			None => UNDESCRIBABLE.to_string(),
+		}
+	}
+	fn known_noncanon(input: &[u8], canon: &[u8], _x: &Self, _v: u32) -> Vec<String> {
+		// `is_secondary = read_u8()? != 0`: a flag byte 2..255 reads as true and is written back as 1
+		if input.len() == 53 && canon.len() == 53 && input[..52] == canon[..52] && input[52] > 1 && canon[52] == 1 {
+			vec!["headerentry-flag-byte-normalised".to_string()]
+		} else {
+			vec![]
+		}
+	}
+}
+
+impl Ty for CommitPos {
+	const NAME: &'static str = "CommitPos";
+	fn hash_hex(&self) -> Option<String> {
+		None
+	}
+	fn same(&self, d: &Self, _v: u32) -> bool {
+		self == d
+	}
+	fn describe(&self) -> String {
+		format!("{} {}", self.pos, self.height)
+	}
+}
+
+/// the spent index of a block (`ChainStore::save_spent_index` / `get_spent_index`)
+impl Ty for Vec<CommitPos> {
+	const NAME: &'static str = "SpentIndex";
+	fn hash_hex(&self) -> Option<String> {
+		None
+	}
+	fn same(&self, d: &Self, _v: u32) -> bool {
+		self == d
+	}
+	fn describe(&self) -> String {
+		let mut s = self.len().to_string();
+		for c in self {
+			s.push_str(&format!(" {} {}", c.pos, c.height));
+		}
+		s
+	}
+	fn known_noncanon(input: &[u8], canon: &[u8], _x: &Self, _v: u32) -> Vec<String> {
+		// `Vec<T>::read` ends at the first item cut short by the end of the source: the partial
+		// item is dropped
+		if input.len() % 16 != 0 && canon.len() == input.len() / 16 * 16 && input[..canon.len()] == *canon {
+			vec!["vec-trailing-partial-item-dropped".to_string()]
+		} else {
+			vec![]
+		}
+	}
+}
+
+/// `Vec<T>` of an item type whose reader can fail with something else than `UnexpectedEof`
+/// (the generic `impl Readable for Vec<T>` must hand such an error on, wherever the item sits)
+impl Ty for Vec<OutputIdentifier> {
+	const NAME: &'static str = "OutputIdVec";
+	fn hash_hex(&self) -> Option<String> {
+		None
+	}
+	fn same(&self, d: &Self, _v: u32) -> bool {
+		self.len() == d.len() && self.iter().zip(d.iter()).all(|(a, b)| a.features == b.features && a.commit == b.commit)
+	}
+	fn describe(&self) -> String {
+		let mut s = self.len().to_string();
+		for o in self {
+			s.push_str(&format!(" {} {}", of_tok(o.features), hex(&o.commit.0)));
+		}
+		s
+	}
+	fn known_noncanon(input: &[u8], canon: &[u8], _x: &Self, _v: u32) -> Vec<String> {
+		if input.len() % 34 != 0 && canon.len() == input.len() / 34 * 34 && input[..canon.len()] == *canon {
+			vec!["vec-trailing-partial-item-dropped".to_string()]
+		} else {
+			vec![]
+		}
+	}
+}
+
+impl Ty for MerkleProof {
+	const NAME: &'static str = "MerkleProof";
+	fn hash_hex(&self) -> Option<String> {
+		None
+	}
+	fn same(&self, d: &Self, _v: u32) -> bool {
+		self == d
+	}
+	fn describe(&self) -> String {
+		format!("{} {}", self.mmr_size, hashes_tokens(&self.path))
+	}
+}
+
+/// a header read with `DeserializationMode::SkipPow` (what `get_block_header_skip_proof` does)
+fn skip_line(cx: &mut Ctx, chain: char, v: u32, bytes: &[u8], orig: Option<&BlockHeader>, what: &str) {
+	set_env(chain, false);
+	let b2 = bytes.to_vec();
+	let r = catch(move || {
+		let mut src = &b2[..];
+		let r = ser::deserialize::<BlockHeader, _>(&mut src, ProtocolVersion(v), DeserializationMode::SkipPow);
+		(r, src.len())
+	});
+	let lhs = format!("ser skip {} {} {}", chain, v, hex(bytes));
+	match r {
+		Err(m) => {
+			cx.out.line(&lhs, "panic");
+			cx.oracle_fail(format!("BlockHeader read under SkipPow panicked ({}) on {} [version {}]", one_line(&m), shown(bytes), v));
+			cx.stat(format!("skip {} {} panic", chain, what));
+		}
+		Ok((Err(e), _)) => {
+			let en = err_name(&e);
+			cx.out.line(&lhs, &format!("err {}", en));
+			cx.stat(format!("skip {} {} err:{}", chain, what, en));
+			if orig.is_some() {
+				cx.oracle_fail(format!("BlockHeader does not decode from its own encoding under SkipPow: {} ({}) [version {}]", shown(bytes), en, v));
+			}
+		}
+		Ok((Ok(h), rest)) => {
+			let consumed = bytes.len().saturating_sub(rest);
+			let re = enc_at(&h, v);
+			cx.out.line(&lhs, &format!("ok {} {} {}", consumed, show_enc(&re), h.pow.proof.nonces.len()));
+			cx.stat(format!("skip {} {} ok", chain, what));
+			if let Some(o) = orig {
+				// everything but the nonces is the value that was written, the packed nonces are
+				// exactly what is left unread
+				let mut want = o.clone();
+				want.pow.proof.nonces = vec![];
+				if h != want {
+					cx.oracle_fail(format!("BlockHeader read under SkipPow differs from the written header in more than the nonces: {} [version {}]", shown(bytes), v));
+				}
+				let packed = o.pow.proof.pack_nonces().len();
+				if consumed + packed != bytes.len() {
+					cx.oracle_fail(format!("BlockHeader read under SkipPow consumed {} of {} bytes (packed nonces: {}): {} [version {}]", consumed, bytes.len(), packed, shown(bytes), v));
+				}
+			}
+		}
+	}
+}
+
+fn store_elements(cx: &mut Ctx) {
+	// PMMRable::elmt_size() of every element type
+	let show = |o: Option<u16>| o.map(|n| n.to_string()).unwrap_or_else(|| "none".to_string());
+	cx.out.line("ser const elmt_size_BlockHeader", &show(BlockHeader::elmt_size()));
+	cx.out.line("ser const elmt_size_OutputIdentifier", &show(OutputIdentifier::elmt_size()));
+	cx.out.line("ser const elmt_size_RangeProof", &show(RangeProof::elmt_size()));
+	cx.out.line("ser const elmt_size_BitmapChunk", &show(BitmapChunk::elmt_size()));
+	cx.out.line("ser const elmt_size_TxKernel", &show(TxKernel::elmt_size()));
+	cx.out.line("ser const second_pow_edge_bits", &grin_core::consensus::SECOND_POW_EDGE_BITS.to_string());
+
+	// a fixed element size must be the length of what `as_elmt()` writes (the data file is indexed
+	// by position * elmt_size), at the db version and at every other version
+	fn size_oracle<T: PMMRable>(cx: &mut Ctx, x: &T, name: &str)
+	where
+		T::E: Writeable,
+	{
+		if let Some(sz) = T::elmt_size() {
+			for v in VERSIONS.iter() {
+				match enc_at(&x.as_elmt(), *v) {
+					Ok(b) if b.len() == sz as usize => {}
+					Ok(b) => cx.oracle_fail(format!("{} element written by as_elmt() has {} bytes, elmt_size() says {}: {} [version {}]", name, b.len(), sz, shown(&b), v)),
+					Err(e) => cx.oracle_fail(format!("{} element cannot be encoded ({}) [version {}]", name, e, v)),
+				}
+			}
+		}
+		cx.stat(format!("elmt size oracle {}", name));
+	}
+	for i in 0..40 {
+		let o = gen_output(&mut cx.rng, i % 2 == 0);
+		size_oracle(cx, &o.identifier(), "OutputIdentifier");
+		size_oracle(cx, &o.proof, "RangeProof");
+		let k = gen_kernel(&mut cx.rng, i % 4);
+		size_oracle(cx, &k, "TxKernel");
+	}
+
+	for chain in ['A', 'M'].iter() {
+		let n = if cx.thorough { 200 } else { 40 };
+		for i in 0..n {
+			set_env(*chain, false);
+			let mut h = gen_header(&mut cx.rng, *chain);
+			// corners: secondary PoW edge bits (29) and its neighbours, timestamps below zero and at
+			// the epoch, difficulty / scaling at the ends of their ranges
+			let ps = proofsize_of(*chain);
+			match i % 8 {
+				0 => h.pow.proof = gen_proof(&mut cx.rng, 29, ps),
+				1 => h.pow.proof = gen_proof(&mut cx.rng, 28, ps),
+				2 => h.pow.proof = gen_proof(&mut cx.rng, 30, ps),
+				3 => {
+					h.timestamp = DateTime::<Utc>::from_timestamp(-1 - (cx.rng.below(1 << 40) as i64), 0).unwrap_or_default();
+					h.pow.secondary_scaling = u32::MAX;
+				}
+				4 => {
+					h.timestamp = DateTime::<Utc>::from_timestamp(0, 0).unwrap_or_default();
+					h.pow.total_difficulty = Difficulty::from_num(u64::MAX);
+					h.pow.secondary_scaling = 0;
+				}
+				5 => h.timestamp = DateTime::<Utc>::from_timestamp(TS_MIN, 0).unwrap_or_default(),
+				_ => {}
+			}
+			// as_elmt: the entry the header MMR stores
+			let entry = match catch(AssertUnwindSafe(|| h.as_elmt())) {
+				Ok(e) => e,
+				Err(m) => {
+					cx.oracle_fail(format!("BlockHeader::as_elmt panicked ({}) on {}", one_line(&m), header_tokens(&h)));
+					continue;
+				}
+			};
+			let eb = enc_at(&entry, 1);
+			let ehash = catch(AssertUnwindSafe(|| entry.hash())).ok();
+			cx.out.line(
+				&format!("ser elmt {} {}", chain, header_tokens(&h)),
+				&format!("{} {}", show_enc(&eb), ehash.map(|x| hex(x.as_bytes())).unwrap_or_else(|| "panic".to_string())),
+			);
+			cx.stat(format!("elmt {} edge_bits{}29 ts{}0", chain, if h.pow.proof.edge_bits == 29 { "==" } else { "!=" }, if h.timestamp.timestamp() < 0 { "<" } else { ">=" }));
+			// the entry's identity hash is the header's, whatever version it is stored at
+			if ehash != catch(AssertUnwindSafe(|| h.hash())).ok() {
+				cx.oracle_fail(format!("HeaderEntry made by as_elmt() does not carry the header's hash: {}", header_tokens(&h)));
+			}
+			size_oracle(cx, &h, "BlockHeader");
+			roundtrip_all(cx, *chain, false, &entry, i < 10);
+			if let Ok(b) = &eb {
+				// what comes back from the data file still answers the header's hash
+				if let Ok((d, _)) = dec_full::<HeaderEntry>(b, 1) {
+					if Some(d.hash()) != ehash {
+						cx.oracle_fail(format!("HeaderEntry read back from {} answers another hash", shown(b)));
+					}
+				}
+				if i < 12 {
+					generic_mutations::<HeaderEntry>(cx, 1, false, *chain, b, 60, 6);
+					// the flag byte: every value
+					for f in [0u8, 1, 2, 3, 0x7f, 0x80, 0xfe, 0xff].iter() {
+						if let Some(m) = patched(b, 52, &[*f]) {
+							dec_case::<HeaderEntry>(cx, 1, false, *chain, &m, None, Expect::Any, "flag-byte");
+						}
+					}
+				}
+			}
+			// the same header read back under SkipPow, at every version
+			for v in VERSIONS.iter() {
+				if let Some(b) = own_enc(cx, &h, *v) {
+					skip_line(cx, *chain, *v, &b, Some(&h), "valid");
+					if i < 6 && *v == 1 {
+						// truncations around the proof, padding bits set, edge_bits out of range,
+						// timestamps out of range: SkipPow checks edge_bits and the timestamp only
+						let plen = h.pow.proof.pack_nonces().len();
+						let eb_off = b.len().saturating_sub(plen + 1);
+						for cut in [0usize, 1, eb_off.saturating_sub(1), eb_off, eb_off + 1, eb_off + 2, b.len().saturating_sub(1)].iter() {
+							skip_line(cx, *chain, 1, b.get(..*cut).unwrap_or(&b), None, "trunc");
+						}
+						for ebv in [0u8, 1, 29, 63, 64, 255].iter() {
+							if let Some(m) = patched(&b, eb_off, &[*ebv]) {
+								skip_line(cx, *chain, 1, &m, None, "edge-bits");
+							}
+						}
+						if let Some(last) = b.last() {
+							if let Some(m) = patched(&b, b.len() - 1, &[*last | 0x80]) {
+								skip_line(cx, *chain, 1, &m, None, "padding-bit");
+							}
+						}
+						for ts in [TS_MAX + 1, TS_MIN - 1, TS_MAX, TS_MIN].iter() {
+							if let Some(m) = patched(&b, 10, &ts.to_be_bytes()) {
+								skip_line(cx, *chain, 1, &m, None, "timestamp-range");
+							}
+						}
+					}
+				}
+			}
+		}
+	}
+
+	// CommitPos and the spent index
+	let n = if cx.thorough { 300 } else { 60 };
+	for i in 0..n {
+		let c = CommitPos { pos: pick_u64(&mut cx.rng), height: pick_u64(&mut cx.rng) };
+		roundtrip_all(cx, 'A', false, &c, true);
+		if i < 10 {
+			if let Some(b) = own_enc(cx, &c, 1) {
+				generic_mutations::<CommitPos>(cx, 1, false, 'A', &b, 20, 4);
+			}
+		}
+	}
+	for i in 0..n {
+		let len = match i {
+			0 => 0,
+			1 => 1,
+			2 => 2,
+			_ => cx.rng.below(if i % 10 == 0 { 400 } else { 12 }) as usize,
+		};
+		let l: Vec<CommitPos> = (0..len).map(|_| CommitPos { pos: pick_u64(&mut cx.rng), height: pick_u64(&mut cx.rng) }).collect();
+		match len {
+			0 => cx.corner("SpentIndex:empty"),
+			1 => cx.corner("SpentIndex:1-entry"),
+			_ => {}
+		}
+		roundtrip_all(cx, 'A', false, &l, i < 30);
+		if i < 12 {
+			if let Some(b) = own_enc(cx, &l, 1) {
+				// every cut: a partial last entry is dropped, never an error
+				for cut in 0..b.len().min(50) {
+					dec_case::<Vec<CommitPos>>(cx, 1, false, 'A', &b[..b.len() - cut], None, Expect::Any, "trunc");
+				}
+				generic_mutations::<Vec<CommitPos>>(cx, 1, false, 'A', &b, 0, 4);
+			}
+		}
+	}
+
+	// the generic Vec<T> reader over items that can be malformed: a bad feature tag in item k
+	for i in 0..(n / 3) {
+		let len = 1 + cx.rng.below(6) as usize;
+		let l: Vec<OutputIdentifier> = (0..len).map(|j| gen_output(&mut cx.rng, (i + j) % 3 == 0).identifier()).collect();
+		roundtrip_all(cx, 'A', false, &l, i < 10);
+		if let Some(b) = own_enc(cx, &l, 1) {
+			for k in 0..len {
+				for tag in [2u8, 0xff].iter() {
+					if let Some(m) = patched(&b, 34 * k, &[*tag]) {
+						dec_case::<Vec<OutputIdentifier>>(cx, 1, false, 'A', &m, None, Expect::Reject, "bad-tag-in-item");
+					}
+				}
+			}
+			if i < 6 {
+				for cut in 1..b.len().min(40) {
+					dec_case::<Vec<OutputIdentifier>>(cx, 1, false, 'A', &b[..b.len() - cut], None, Expect::Any, "trunc");
+				}
+			}
+		}
+	}
+
+	// MerkleProof
+	for i in 0..n {
+		let len = match i {
+			0 => 0,
+			1 => 1,
+			_ => cx.rng.below(if i % 10 == 0 { 70 } else { 12 }) as usize,
+		};
+		let p = MerkleProof { mmr_size: pick_u64(&mut cx.rng), path: (0..len).map(|_| hash32(&mut cx.rng)).collect() };
+		match len {
+			0 => cx.corner("MerkleProof:empty-path"),
+			1 => cx.corner("MerkleProof:1-hash"),
+			_ => {}
+		}
+		roundtrip_all(cx, 'A', false, &p, i < 30);
+		if i < 12 {
+			if let Some(b) = own_enc(cx, &p, 1) {
+				generic_mutations::<MerkleProof>(cx, 1, false, 'A', &b, 40, 6);
+				// the count field: one less (accepted, bytes left over), one more, huge
+				for cnt in [len.saturating_sub(1) as u64, len as u64 + 1, 1 << 32, 1 << 58, u64::MAX].iter() {
+					if let Some(m) = patched(&b, 8, &cnt.to_be_bytes()) {
+						let exp = if *cnt > len as u64 { Expect::Reject } else { Expect::Any };
+						dec_case::<MerkleProof>(cx, 1, false, 'A', &m, None, exp, "count");
+					}
+				}
+			}
+		}
+	}
+
+	// Hash::from_vec: zero-padded / truncated to 32 bytes
+	for len in (0usize..=40).chain([63, 64, 65, 1000].iter().cloned()) {
+		let v = cx.rng.bytes(len);
+		let v2 = v.clone();
+		match catch(move || Hash::from_vec(&v2)) {
+			Ok(h) => cx.out.line(&format!("ser fromvec {}", if v.is_empty() { "-".to_string() } else { hex(&v) }), &hex(h.as_bytes())),
+			Err(m) => cx.oracle_fail(format!("Hash::from_vec panicked ({}) on {}", one_line(&m), hex(&v))),
+		}
+	}
+}
+
+// ---------------------------------------------------------------------------------------------
+// derived identifiers every node must compute alike (run `ids`): kernel_sig_msg, pre_pow,
+// from_pre_pow_and_proof, short_id. A node that computes one of them differently still agrees with
+// itself, so only the value itself can show it: each is compared byte for byte with the model.
+
+fn derived_ids(cx: &mut Ctx) {
+	use grin_core::core::id::ShortIdentifiable;
+	set_env('A', true);
+	// kernel_sig_msg: every variant, boundary field values
+	let mut feats: Vec<KernelFeatures> = vec![KernelFeatures::Coinbase];
+	for fee in [0u64, 1, 2, 255, 256, (1 << 40) - 1, 1 << 40, u64::MAX >> 1, u64::MAX].iter() {
+		feats.push(KernelFeatures::Plain { fee: fee_fields(*fee) });
+		for lock in [0u64, 1, 255, 256, 1 << 32, u64::MAX - 1, u64::MAX].iter() {
+			feats.push(KernelFeatures::HeightLocked { fee: fee_fields(*fee), lock_height: *lock });
+		}
+		for rel in [1u64, 2, 255, 256, 1440, 10079, 10080].iter() {
+			if let Ok(r) = NRDRelativeHeight::new(*rel) {
+				feats.push(KernelFeatures::NoRecentDuplicate { fee: fee_fields(*fee), relative_height: r });
+			}
+		}
+	}
+	let extra = if cx.thorough { 400 } else { 100 };
+	for i in 0..extra {
+		feats.push(gen_kernel_features(&mut cx.rng, i % 4));
+	}
+	let mut seen: BTreeMap<Vec<u8>, String> = BTreeMap::new();
+	for f in feats.iter() {
+		let d = kf_tokens(f);
+		match catch(AssertUnwindSafe(|| f.kernel_sig_msg())) {
+			Ok(Ok(m)) => {
+				let bytes: Vec<u8> = m[..].to_vec();
+				cx.out.line(&format!("ser sigmsg {}", d), &hex(&bytes));
+				cx.stat(format!("sigmsg {}", d.split(' ').next().unwrap_or("?")));
+				// two different feature values never share a message
+				if let Some(prev) = seen.insert(bytes.clone(), d.clone()) {
+					if prev != d {
+						cx.oracle_fail(format!("kernel_sig_msg is the same for two different kernel features: [{}] and [{}] -> {}", prev, d, hex(&bytes)));
+					}
+				}
+			}
+			Ok(Err(e)) => cx.oracle_fail(format!("kernel_sig_msg fails ({:?}) on {}", e, d)),
+			Err(m) => cx.oracle_fail(format!("kernel_sig_msg panicked ({}) on {}", one_line(&m), d)),
+		}
+	}
+	// pre_pow and from_pre_pow_and_proof
+	for chain in ['A', 'M'].iter() {
+		let n = if cx.thorough { 200 } else { 40 };
+		for i in 0..n {
+			set_env(*chain, false);
+			let h = gen_header(&mut cx.rng, *chain);
+			let pp = match catch(AssertUnwindSafe(|| h.pre_pow())) {
+				Ok(b) => b,
+				Err(m) => {
+					cx.oracle_fail(format!("BlockHeader::pre_pow panicked ({}) on {}", one_line(&m), header_tokens(&h)));
+					continue;
+				}
+			};
+			cx.out.line(&format!("ser prepow {} {}", chain, header_tokens(&h)), &hex(&pp));
+			cx.stat(format!("prepow {}", chain));
+			// the full encoding is pre_pow followed by the proof, at every version
+			for v in VERSIONS.iter() {
+				if let (Some(full), Ok(pf)) = (own_enc(cx, &h, *v), enc_at(&h.pow.proof, *v)) {
+					let mut want = pp.clone();
+					want.extend_from_slice(&pf);
+					if full != want {
+						cx.oracle_fail(format!("BlockHeader encoding is not pre_pow() followed by the proof: {} [version {}]", shown(&full), v));
+					}
+				}
+			}
+			// from_pre_pow_and_proof(hex of pre_pow without the nonce, nonce, proof) rebuilds the header
+			if pp.len() >= 8 {
+				let no_nonce = &pp[..pp.len() - 8];
+				let hx: String = no_nonce.iter().map(|b| format!("{:02x}", b)).collect();
+				let (nonce, proof) = (h.pow.nonce, h.pow.proof.clone());
+				match catch(move || BlockHeader::from_pre_pow_and_proof(hx, nonce, proof)) {
+					Ok(Ok(r)) if r == h => cx.stat(format!("from_pre_pow_and_proof {} ok", chain)),
+					Ok(Ok(_)) => cx.oracle_fail(format!("from_pre_pow_and_proof rebuilds a different header from {}", header_tokens(&h))),
+					Ok(Err(e)) => cx.oracle_fail(format!("from_pre_pow_and_proof refuses an honest header ({:?}): {}", e, header_tokens(&h))),
+					Err(m) => cx.oracle_fail(format!("from_pre_pow_and_proof panicked ({}) on {}", one_line(&m), header_tokens(&h))),
+				}
+				// malformed strings: an error, never a panic
+				if i < 10 {
+					let good: String = no_nonce.iter().map(|b| format!("{:02x}", b)).collect();
+					let bads: Vec<String> = vec![
+						String::new(),
+						"zz".to_string(),
+						"0".to_string(),
+						"€a".to_string(),
+						good[..good.len() - 1].to_string(),
+						good[..good.len() / 2].to_string(),
+						format!("{}00", good),
+						format!("{}é", &good[..good.len() - 2]),
+						good.to_uppercase(),
+						format!("0x{}", good),
+					];
+					for b in bads {
+						let (b2, proof) = (b.clone(), h.pow.proof.clone());
+						match catch(move || BlockHeader::from_pre_pow_and_proof(b2, nonce, proof).is_ok()) {
+							Ok(ok) => cx.stat(format!("from_pre_pow_and_proof malformed -> {}", if ok { "ok" } else { "err" })),
+							Err(m) => cx.oracle_fail(format!("from_pre_pow_and_proof panicked ({}) on the string {:?}", one_line(&m), b)),
+						}
+					}
+				}
+			}
+		}
+	}
+	// short_id: kernels, outputs, inputs against block hashes and nonces
+	let n = if cx.thorough { 1000 } else { 250 };
+	for i in 0..n {
+		let bh = hash32(&mut cx.rng);
+		let nonce = match i % 5 {
+			0 => 0,
+			1 => u64::MAX,
+			_ => pick_u64(&mut cx.rng),
+		};
+		let item_hash = match i % 3 {
+			0 => gen_kernel(&mut cx.rng, (i % 4) as u64).hash(),
+			1 => gen_output(&mut cx.rng, false).identifier().hash(),
+			_ => hash32(&mut cx.rng),
+		};
+		// `impl<H: Hashed> ShortIdentifiable for H`: the id depends on the item through its hash only;
+		// a `Hash` hashes to blake2b of its bytes, so hand the model the item's hash as the code sees it
+		let hh = catch(AssertUnwindSafe(|| item_hash.hash())).ok();
+		match (catch(AssertUnwindSafe(|| item_hash.short_id(&bh, nonce))), hh) {
+			(Ok(sid), Some(ih)) => {
+				cx.out.line(&format!("ser shortid {} {} {}", hex(ih.as_bytes()), hex(bh.as_bytes()), nonce), &hex(sid.as_ref()));
+				cx.stat("shortid".to_string());
+			}
+			(Err(m), _) => cx.oracle_fail(format!("short_id panicked ({}) on block hash {} nonce {}", one_line(&m), hex(bh.as_bytes()), nonce)),
+			_ => {}
+		}
+	}
+	// and through the real types: a kernel's short id is the short id of its hash
+	for i in 0..20u64 {
+		let k = gen_kernel(&mut cx.rng, i % 4);
+		let bh = hash32(&mut cx.rng);
+		let nonce = pick_u64(&mut cx.rng);
+		if let (Ok(sid), Ok(kh)) = (catch(AssertUnwindSafe(|| k.short_id(&bh, nonce))), catch(AssertUnwindSafe(|| k.hash()))) {
+			cx.out.line(&format!("ser shortid {} {} {}", hex(kh.as_bytes()), hex(bh.as_bytes()), nonce), &hex(sid.as_ref()));
+			cx.stat("shortid kernel".to_string());
+		}
+	}
+}
+
 fn main() {
 	quiet_panics();
 	let args: Vec<String> = std::env::args().collect();
@@ -4505,6 +5050,12 @@ fn main() {
 	}
 	if section == "all" || section == "msg" {
 		messages(&mut cx);
+	}
+	if section == "all" || section == "store" {
+		store_elements(&mut cx);
+	}
+	if section == "all" || section == "ids" {
+		derived_ids(&mut cx);
 	}
 	cx.flush_gen_fails();
 	let stats = std::mem::take(&mut cx.stats);
